@@ -67,7 +67,10 @@ RTL_POOL = [p for p in POOL if p[0] in ("alef-ar", "beh-ar", "lam-ar", "alef-hb"
 @st.composite
 def kern_font(draw, pool=POOL):
     names = draw(st.lists(st.sampled_from(pool), min_size=3, max_size=12, unique=True))
-    names = [n for n in names if n[0] not in ALTS or any(m[0] == ALTS[n[0]] for m in names)]
+    # an alternate is kept only together with its base: add the missing bases rather than dropping the alternates (three alternates alone would leave nothing)
+    have = {n[0] for n in names}
+    names = names + [(ALTS[n[0]], POOLD[ALTS[n[0]]]) for n in names if n[0] in ALTS and ALTS[n[0]] not in have and (ALTS[n[0]], POOLD[ALTS[n[0]]]) in pool]
+    names = [n for n in names if n[0] not in ALTS or any(m[0] == ALTS[n[0]] for m in names)] or [("A", 0x41)]
     glyphs = []
     for n, u in names:
         w = 0 if (n in MARKS and draw(st.booleans())) else draw(st.sampled_from([500, 600, 250.5]))
